@@ -1215,11 +1215,19 @@ def conc_case(rng, idx, base):
             j = rng.randrange(nm)
             plan.append([rng.choice(["store", "retrieve", "retrieve_key", "store", "retrieve"]), j])
         plans.append(plan)
+    if rng.random() < 0.75:
+        # aimed contention: one process stores a model while another reads the same key and a third stores the model
+        # that shares its dataset; seeded start offsets let the others arrive in the middle of the first store
+        plans[0][0] = ["store", 0]
+        plans[1][0] = [rng.choice(["poll_key", "poll_key", "retrieve_key", "retrieve"]), 0]
+        if nproc > 2:
+            plans[2][0] = ["store", 1]
+    starts = [0.0] + [rng.choice([0.0, 0.02, 0.05, 0.1, 0.15, 0.2, 0.3]) for _ in range(nproc - 1)]
     # every mutation event of a process is preceded by a short sleep (seeded): a store then lasts 0.1-0.4 s instead of
     # 15 ms and the other processes' retrievals really fall between its file operations
     delays = [rng.choice([0.002, 0.004, 0.008]) for _ in range(nproc)]
-    c.sample = {"kind": "concurrency", "plans": plans, "delays": delays, "models": [m["name"] for m in spec["models"]]}
-    c.fp = fp_of("conc", plans, spec["models"], spec["datasets"])
+    c.sample = {"kind": "concurrency", "plans": plans, "delays": delays, "start_offsets": starts, "models": [m["name"] for m in spec["models"]]}
+    c.fp = fp_of("conc", plans, delays, starts, spec["models"], spec["datasets"])
     root = os.path.join(base, "run")
     os.makedirs(root)
     # the context is created before the race: concurrent *creation* of one context is not part of the property
@@ -1229,14 +1237,16 @@ def conc_case(rng, idx, base):
         return c
     gate_r, gate_w = os.pipe()
 
-    def worker(plan, delay):
+    def worker(plan, delay, start):
         def child(w):
             os.close(gate_w)
             os.read(gate_r, 1)  # returns at EOF: all processes start together
+            time.sleep(start)
             hits = Counter()
             out = []
             ctx = open_ctx(root)
-            crashfs.arm(root, "delay", frac=delay)
+            # long pauses before the commit-critical steps (a retrieval needs ~0.3 s between its first and last read)
+            crashfs.arm(root, "delay", frac=delay, slow=(("results.json", ".datainfo", "PENDING", "annotations"), 0.4))
             for kind, j in plan:
                 n = spec["models"][j]["name"]
                 try:
@@ -1244,18 +1254,33 @@ def conc_case(rng, idx, base):
                         ctx.store_model_entry(entries[j])
                         out.append(["stored", j])
                         continue
-                    me = ctx.retrieve_model_entry(n) if kind == "retrieve" else ctx.model_database.retrieve_model_entry(ModelHash(models[j]))
+                    if kind == "poll_key":
+                        # ask again and again until the entry is visible (bounded): the first sighting falls right after
+                        # the first file of the entry appears - it must nevertheless be the complete entry
+                        t_end = time.monotonic() + 4.0
+                        while True:
+                            try:
+                                me = ctx.model_database.retrieve_model_entry(ModelHash(models[j]))
+                                break
+                            except Exception:
+                                hits["polls_refused"] += 1
+                                if time.monotonic() > t_end:
+                                    raise
+                                time.sleep(0.001)
+                    else:
+                        me = ctx.retrieve_model_entry(n) if kind == "retrieve" else ctx.model_database.retrieve_model_entry(ModelHash(models[j]))
                 except Exception as e:  # noqa
                     out.append([kind + "_raised", j, _exc(e), str(e)[:120]])
                     continue
                 d = cmp_entry(me, entries[j], models[j], hits, name=n if kind == "retrieve" else None,
                               descs={spec["models"][j]["desc"]} if kind == "retrieve" else None)
                 out.append([kind + "_ok" if not d else kind + "_bad", j, d])
+            out.append(["polls", -1, hits.get("polls_refused", 0)])
             os.write(w, b"J " + json.dumps(out, default=repr).encode() + b"\n")
         return child
 
     # no threads: all children are forked first, then the parent opens the gate
-    results = crashfs.run_forked_many([worker(p, d) for p, d in zip(plans, delays)], timeout=60, after_fork=lambda: os.close(gate_w))
+    results = crashfs.run_forked_many([worker(p, d, t) for p, d, t in zip(plans, delays, starts)], timeout=60, after_fork=lambda: os.close(gate_w))
     os.close(gate_r)
     finished = 0
     stored = set()
@@ -1268,7 +1293,9 @@ def conc_case(rng, idx, base):
         finished += 1
         for rec in json.loads(line[2:]):
             kind, j = rec[0], rec[1]
-            if kind == "stored":
+            if kind == "polls":
+                c.hit("conc:polls_refused_before_first_sighting", rec[2])
+            elif kind == "stored":
                 stored.add(j)
                 c.hit("conc:stores")
             elif kind == "store_raised":
